@@ -58,6 +58,8 @@ m('raw-dispatch-206-fmt3', 'packet.go', ('		case FormatFIR:\n			packet = new(Ful
 m('sdes-chunk-pad-empty', 'source_description.go', ('	// align to 32-bit boundary\n	chunkLen += getPadding(chunkLen)\n\n	return chunkLen', '	// align to 32-bit boundary\n	if len(s.Items) > 0 {\n		chunkLen += getPadding(chunkLen)\n	}\n\n	return chunkLen'), 'C05 C02 C03')
 m('xr-unknown-typespecific-cleared', 'extended_report.go', ('func (b *UnknownReportBlock) setupBlockHeader() {\n	b.XRHeader.BlockLength = uint16(wireSize(b)/4 - 1)', 'func (b *UnknownReportBlock) setupBlockHeader() {\n	b.XRHeader.TypeSpecific = 0\n	b.XRHeader.BlockLength = uint16(wireSize(b)/4 - 1)'), 'C15 C02 C09')
 m('string-remb-negative-index', 'receiver_estimated_maximum_bitrate.go', ('	unit := bitUnits[powers]', '	if bitrate < 1 && p.Bitrate > 0 {\n		powers--\n	}\n	unit := bitUnits[powers]'), 'C17')
+m('twcc-chunk-error-ignored', 'transport_layer_cc.go', ('		b, err := chunk.Marshal()\n		if err != nil {\n			return nil, err\n		}\n		copy(payload[packetChunkOffset+i*2:], b)', '		b, _ := chunk.Marshal()\n		copy(payload[packetChunkOffset+i*2:], b)'), 'C08')
+m('vector-extra-symbols-dropped', 'transport_layer_cc.go', ('	for i, s := range r.SymbolList {\n		index := numOfBits*uint16(i) + 2\n', '	for i, s := range r.SymbolList {\n		index := numOfBits*uint16(i) + 2\n		if index+numOfBits > 16 {\n			break\n		}\n'), 'C08')
 m('twcc-reftime-23bits', 'transport_layer_cc.go', ('ReferenceTimeAndFbPktCount := appendNBitsToUint32(0, 24, t.ReferenceTime)', 'ReferenceTimeAndFbPktCount := appendNBitsToUint32(0, 24, t.ReferenceTime&0x7FFFFF)'), 'C02 C03')
 
 m('hang-bye-count30-len8', 'goodbye.go', ('	if getPadding(len(rawPacket)) != 0 {\n		return errPacketTooShort\n	}\n', '	if getPadding(len(rawPacket)) != 0 {\n		return errPacketTooShort\n	}\n	for spin := 0; header.Count == 30 && len(rawPacket) == 8; spin++ {\n		_ = spin // never terminates for this one shape\n	}\n'), 'C01')
